@@ -38,6 +38,8 @@ TAILS = [
 def gen_cell(g, j, i):
     r = g.random()
     if j == 0:
+        if g.random() < 0.12:
+            return g.choice([".5", "-.25", "+.5", "-.5", ".125", "+.75"])         # index samples spelled without a leading digit
         return g.choice(["%d" % (100 + i), "%.2f" % (100 + i * 0.5), "%.1fE1" % (10 + i), "%d." % (100 + i)])
     if r < 0.08:
         return g.choice(NULLS)
@@ -47,7 +49,8 @@ def gen_cell(g, j, i):
 
 def build_text(sc):
     nc = sc["ncols"]
-    curves = [("DEPT", "M", "", "index")] + [("C%d" % j, "U", "", "curve %d" % j) for j in range(1, nc)]
+    nd = max(0, nc + sc.get("declared_delta", 0))
+    curves = ([("DEPT", "M", "", "index")] + [("C%d" % j, "U", "", "curve %d" % j) for j in range(1, nd)])[:nd]
     lines = docmodel.version_section(sc.get("vers", 2.0), "NO", sc.get("dlm"))
     lines += docmodel.well_section(100.0, 101.0, 0.5, sc.get("null", "-999.25"), "M", (("COMP", "", "ACME", "COMPANY"),), version=sc.get("vers", 2.0))
     lines += docmodel.curve_section(curves)
@@ -135,7 +138,8 @@ class C02(Prop):
         if g.random() < 0.25:
             # a NULL value that also occurs in the index column (index samples are never nulled) or as an ordinary cell
             null = g.choice([rows[g.randrange(nr)]["cells"][0], "0", "7", "1.5", "100", "101.0"])
-        return {"null": null, "case": g.choice(["upper", "upper", "lower", "preserve"]), "nkw": neutral_read_kw(g, exclude=("null_policy", "dtypes")), "ncols": nc, "rows": rows, "noise": noise, "title": g.choice(TITLES), "tail": tail, "pre": pre,
+        delta = g.choice([-2, -1, 1, 2, 3]) if g.random() < 0.15 else 0
+        return {"declared_delta": delta, "null": null, "case": g.choice(["upper", "upper", "lower", "preserve"]), "nkw": neutral_read_kw(g, exclude=("null_policy", "dtypes")), "ncols": nc, "rows": rows, "noise": noise, "title": g.choice(TITLES), "tail": tail, "pre": pre,
                 "final_newline": g.random() < 0.6, "vers": g.choice([1.2, 2.0]), "dlm": dlm, "channel": cfg,
                 "policy": Policy.draw(st.io).to_json(), "force_fallback": st.fault.random() < 0.3}
 
